@@ -2,6 +2,7 @@
 package c04
 
 import (
+	"encoding"
 	"bytes"
 	"context"
 	"encoding/json"
@@ -288,6 +289,34 @@ func TestLevelText(t *testing.T) {
 		}
 		if err != nil || u != l {
 			failf(t, tripleFail{Event: i, Via: "UnmarshalText(MarshalText())", What: fmt.Sprintf("%q unmarshals to %d, err=%v", b, u, err)})
+		}
+		// the same through the standard interfaces, the way encoding/json, flag and configuration libraries
+		// reach the text form: on a Level value (a struct field passed by value, a map value, boxed in an interface)
+		if tm, ok := interface{}(l).(encoding.TextMarshaler); !ok {
+			failf(t, tripleFail{Event: i, Via: "encoding.TextMarshaler", What: "a Level value does not implement encoding.TextMarshaler"})
+		} else if b2, err2 := tm.MarshalText(); err2 != nil || string(b2) != string(b) {
+			failf(t, tripleFail{Event: i, Via: "encoding.TextMarshaler", What: fmt.Sprintf("MarshalText through the interface gives %q, %v; directly %q", b2, err2, b)})
+		}
+		if _, ok := interface{}(&u).(encoding.TextUnmarshaler); !ok {
+			failf(t, tripleFail{Event: i, Via: "encoding.TextUnmarshaler", What: "*Level does not implement encoding.TextUnmarshaler"})
+		}
+		type holder struct {
+			L zerolog.Level            `json:"l"`
+			M map[string]zerolog.Level `json:"m"`
+			I interface{}              `json:"i"`
+		}
+		jb, jerr := json.Marshal(holder{L: l, M: map[string]zerolog.Level{"k": l}, I: l})
+		var back2 struct {
+			L zerolog.Level            `json:"l"`
+			M map[string]zerolog.Level `json:"m"`
+			I zerolog.Level            `json:"i"`
+		}
+		back2.L, back2.I = 99, 99
+		if jerr == nil {
+			jerr = json.Unmarshal(jb, &back2)
+		}
+		if jerr != nil || back2.L != l || back2.M["k"] != l || back2.I != l {
+			failf(t, tripleFail{Event: i, Via: "encoding/json round trip of Level values", What: fmt.Sprintf("%s reads back as %+v, err=%v", jb, back2, jerr)})
 		}
 		// case-insensitive and upper-case forms of the named levels
 		if i >= -1 && i <= 7 && i != 6 {
